@@ -165,7 +165,35 @@ func c03Scenarios(tier string) []*world.Scenario {
 			Faults: []world.Fault{{Kind: "backend-close", Addr: AddrA, AfterW: 1}}}
 		mk("backend-reconnect", "reconnect", sc)
 	}
+	// (f) backend connections that start with a handshake (AUTH and/or READONLY): the handshake replies under every
+	// segmentation with <= 2 cuts; none of them may surface as the reply to a client's request
+	for mask := 0; mask < 512; mask++ {
+		if bitsSet(mask) > 2 {
+			continue
+		}
+		for _, cfg := range []struct {
+			pw  string
+			rep bool
+		}{{"secret", true}, {"secret", false}, {"", true}} {
+			if (cfg.pw == "" || !cfg.rep) && mask >= 16 {
+				continue
+			}
+			sc := c04HandshakeCuts(mask, cfg.pw, cfg.rep)
+			sc.InputEnum = false
+			sc.Bound = 1
+			name := strings.TrimPrefix(sc.Name, "C04/")
+			mk("handshake/"+name, "handshake", sc)
+		}
+	}
 	return out
+}
+
+func bitsSet(m int) int {
+	n := 0
+	for ; m != 0; m &= m - 1 {
+		n++
+	}
+	return n
 }
 
 // ---------------------------------------------------------------------------------------------
@@ -704,7 +732,7 @@ func c20Reparent() []*world.Scenario {
 
 func init() {
 	register(&Check{ID: "C03", Level: "model_checking",
-		Rule:      "2-3 clients with token-carrying requests on a topology with an unowned range; fault families: multi-key request with one unroutable key (unowned slot / refused dial) in both routing orders, client FIN/RST with requests in flight while another client is accepted (descriptor numbers are reused lowest-first), request timeout with a late backend reply, backend connection loss + redial; request objects are recycled LIFO; every interleaving within the bound; oracle (safety only): each delivered reply is the reference reply of that connection's request at that position or a proxy-generated error; non-trivial = >= 1 non-default choice; distinct = observable outcomes",
+		Rule:      "2-3 clients with token-carrying requests on a topology with an unowned range; fault families: multi-key request with one unroutable key (unowned slot / refused dial) in both routing orders, client FIN/RST with requests in flight while another client is accepted (descriptor numbers are reused lowest-first), request timeout with a late backend reply, backend connection loss + redial, backend connections opened with an AUTH / READONLY handshake whose replies arrive under every segmentation with <= 2 cuts; request objects are recycled LIFO; every interleaving within the bound; oracle (safety only): each delivered reply is the reference reply of that connection's request at that position or a proxy-generated error; non-trivial = >= 1 non-default choice; distinct = observable outcomes",
 		Scenarios: c03Scenarios, BudgetQuick: 100, BudgetThorough: 1500,
 		Assumptions: []string{"replies embed the request key, so a foreign reply is always distinguishable", "LIFO recycling is the most adversarial legal sync.Pool behaviour"}})
 	register(&Check{ID: "C15", Level: "fault_enumeration",
